@@ -36,6 +36,7 @@ struct Directive {
     header: String,
     prologue: String,
     before_tail: String,
+    after_tail: String,
     loops: BTreeMap<usize, LoopSpec>,
     before_return: BTreeMap<usize, String>,
     /// (line-prefix, text): proof text inserted before the first printed line starting with the prefix
@@ -121,7 +122,7 @@ fn parse_template(text: &str) -> Vec<(bool, String, Option<Directive>)> {
                     "from_fn" => {
                         d.from_fn.insert(args[0].parse().unwrap(), args[1].parse().unwrap());
                     }
-                    "header" | "prologue" | "before-tail" | "attrs" => section = Some(kw.to_string()),
+                    "header" | "prologue" | "before-tail" | "after-tail" | "attrs" => section = Some(kw.to_string()),
                     "loop" => {
                         cur_loop = args[0].parse().unwrap();
                         d.loops.entry(cur_loop).or_default();
@@ -163,6 +164,7 @@ fn parse_template(text: &str) -> Vec<(bool, String, Option<Directive>)> {
                 "header" => &mut d.header,
                 "prologue" => &mut d.prologue,
                 "before-tail" => &mut d.before_tail,
+                "after-tail" => &mut d.after_tail,
                 "attrs" => &mut d.attrs,
                 "loop:invariant" => &mut d.loops.get_mut(&cur_loop).unwrap().invariant,
                 "loop:body-prologue" => &mut d.loops.get_mut(&cur_loop).unwrap().body_prologue,
@@ -389,12 +391,14 @@ fn splice(printed: &str, d: &Directive, nloops: usize, nrets: usize) -> Result<S
                 let hi: String = if let Some(p) = h.find("..") { h[p + 2..].trim().to_string() } else if let Some(p) = h.find('<') { h[p + 1..].trim().to_string() } else { String::new() };
                 loop_hi.insert(k, hi.clone());
                 // `$out`: the accumulator the normaliser declared immediately before this loop (`let mut __out_x ..` / `let mut __acc_x ..`)
-                if let Some(pl) = out.last() {
+                // (normaliser temporaries `let __src_x = ..` / `let __hi_x = ..` may sit between the accumulator and the loop)
+                for pl in out.iter().rev() {
                     let t = pl.trim_start();
                     if let Some(rest) = t.strip_prefix("let mut __") {
                         let name: String = rest.chars().take_while(|c| c.is_alphanumeric() || *c == '_').collect();
-                        if name.starts_with("out") || name.starts_with("acc") { loop_out.insert(k, format!("__{name}")); }
+                        if ["out", "acc", "max", "any", "all", "position"].iter().any(|p| name.starts_with(p)) { loop_out.insert(k, format!("__{name}")); break; }
                     }
+                    if !(t.starts_with("let __") || t.starts_with("let mut __")) { break; }
                 }
                 if let Ok(pth) = std::env::var("VX_LOOPVARS") {
                     use std::io::Write;
@@ -438,6 +442,11 @@ fn splice(printed: &str, d: &Directive, nloops: usize, nrets: usize) -> Result<S
             if let Some(txt) = d.before_return.get(&k) {
                 let ind = lines[i].len() - lines[i].trim_start().len();
                 out.push(indent(txt, ind));
+            }
+        } else if t == "__vx_after_tail!();" {
+            if !d.after_tail.trim().is_empty() {
+                let ind = lines[i].len() - lines[i].trim_start().len();
+                out.push(indent(&d.after_tail, ind));
             }
         } else if t == "__vx_tail!();" {
             if !d.before_tail.trim().is_empty() {
@@ -851,6 +860,12 @@ fn main() {
         let src_lines: Vec<&str> = src.lines().collect();
         let mut n = norm::Norm::new(d.from_fn.clone());
         n.map_kind = d.opts.iter().find_map(|o| o.strip_prefix("map=").map(|v| v.to_string()));
+        n.want_after_tail = !d.after_tail.trim().is_empty();
+        n.vunwrap = d.opts.iter().any(|o| o == "vunwrap");
+        for o in &d.opts {
+            if let Some(v) = o.strip_prefix("via:") { if let Some((a, b)) = v.split_once(':') { n.via.push((a.to_string(), b.to_string())); } }
+            if let Some(v) = o.strip_prefix("drain:") { n.drain.push(v.to_string()); }
+        }
         let mut canary: Option<String> = None;
         let mut fn_attrs_done = false;
         let (printed, span, nloops, nrets) = match found {
